@@ -21,7 +21,7 @@ import time
 
 VERIF = os.path.dirname(os.path.dirname(os.path.abspath(__file__)))
 REPO = os.environ.get("VERIF_REPO", "/repo")
-BUILD_ROOT = os.path.join(VERIF, ".build")
+BUILD_ROOT = os.environ.get("VERIF_BUILD_ROOT") or os.path.join(VERIF, ".build")
 
 UBSAN_GATE = ("bounds,null,pointer-overflow,vla-bound,return,unreachable,"
               "integer-divide-by-zero,bool,enum,builtin")
